@@ -798,8 +798,9 @@ class Translator:
             if e[1] == "vec_rep":
                 x, tx = self.ex(e[2][0], env, B); n, tn = self.ex(e[2][1], env, B)
                 if tx in ("lit", "usize") and tn in ("usize", "lit"): return ("(repeat %s %s)" % (x, n), "vecn")
-                if tx != "elem" or tn not in ("usize", "lit"): self.bad("vec![x; n] with x : %s, n : %s" % (tx, tn))
-                return ("(repeat %s %s)" % (x, n), "vec")
+                lt = [l for l, el in LISTS.items() if el == tx and l in ("vec", "cvec")]
+                if not lt or tn not in ("usize", "lit"): self.bad("vec![x; n] with x : %s, n : %s" % (tx, tn))
+                return ("(repeat %s %s)" % (x, n), lt[0])
             if e[1] == "vec":
                 if not e[2]: return ("(@nil (T A))", "vec")         # vec![]: the `locals` table of the function may retype it
                 parts = [self.ex(x, env, B) for x in e[2]]
@@ -815,7 +816,9 @@ class Translator:
             fields, fmt, ty = s
             got = dict(e[2])
             if sorted(got) != sorted(fields): self.bad("struct literal `%s` with fields %s" % (e[1], sorted(got)))
-            vals = [self.ex(got[f], env, B)[0] for f in fields]
+            vts = [self.ex(got[f], env, B) for f in fields]
+            vals = [v[0] for v in vts]
+            if fmt == "{0}" and vts[0][1] in LISTS: ty = vts[0][1]       # a transparent wrapper (Vector { vec }): the type of its field
             return (fmt.format(*vals), ty)
         if k == "block":
             blk = e[1]
